@@ -204,4 +204,18 @@ PROPS = {
         "partial": ["stim sample_dem as a subprocess is not driven; sample_write is called in-process"],
         "assumptions": [],
     },
+    "C17": {
+        "lean_modules": ["StimModel.Props.C17"],
+        "areas": [
+            {"area": "search", "n": {"quick": 700, "thorough": 15000}, "replayable": True},
+        ],
+        "rule": "small generated models (<= 12 errors over <= 5 detectors, 1..70 observables: chains with boundary edges, parallel edges with different observables, hyper-errors, "
+                "suggested decompositions with separators, repeated and cancelling targets, zero-probability errors, repeat/shift blocks); both settings of ignore_ungraphlike_errors, the "
+                "untruncated and randomly truncated hypergraph search, unweighted and weighted (quantisation 1..1000) MaxSAT instances: returned error sets are checked to be elements of the model that cancel "
+                "all detectors and flip an observable, sizes are compared with the exhaustive Lean minimum, failures only when no solution exists; every WCNF is evaluated exhaustively over the error "
+                "variables (unit propagation for the Tseitin variables): feasible <=> undetectable logical error, soft clauses = one unit clause per error with the documented weight; distinct = distinct model texts",
+        "trusted_base": [],
+        "partial": ["bfs_model_min (the (active, held, mask) breadth-first search itself) is not modelled: the search is judged through its answers (oracle)"],
+        "assumptions": [],
+    },
 }
